@@ -33,8 +33,8 @@ type Reporter interface {
 // Cfg configures one history.
 type Cfg struct {
 	Seed      int64 `json:"Seed,string"`
-	Sessions  int // 1..4
-	Boxes     int // initial mailboxes (2..4)
+	Sessions  int   // 1..4
+	Boxes     int   // initial mailboxes (2..4)
 	Steps     int
 	Rev2      bool // ENABLE IMAP4rev2 on every session
 	NoopBias  int  // per-mille probability that a step is a NOOP (low = stale views)
